@@ -202,3 +202,675 @@ Proof.
   destruct Hadm as [Ho Hr]. apply IH; [|exact Hr].
   destruct o as [i x|]; cbn [apply_op]; [apply add_at_inv; tauto|apply clear_inv].
 Qed.
+
+(* ====================================================================================
+   add_region on records whose regions do not span the origin (every linear record)
+   ==================================================================================== *)
+From ASV.C04 Require Proofs.
+Module L := ASV.C04.Proofs.
+
+Definition simple_reg (N : Z) (r : cregion) : Prop := exists p, rloc r = [p] /\ 0 <= ps p /\ ps p < pe p /\ pe p <= N.
+Definition shares_base (a b : loc) : Prop := exists x, L.base_of a x /\ L.base_of b x.
+(* the list is in location order and its regions are pairwise disjoint *)
+Fixpoint sorted_disjoint (l : list cregion) : Prop :=
+  match l with
+  | [] => True
+  | a :: t => Forall (fun b => lend (rloc a) <= lstart (rloc b)) t /\ sorted_disjoint t
+  end.
+
+Lemma simple_overlap p q : ps p < pe p -> ps q < pe q ->
+  (overlap [p] [q] = true <-> ps p < pe q /\ ps q < pe p).
+Proof. intros Hp Hq. cbn. unfold part_overlap, in_part. lia. Qed.
+
+Lemma simple_shares p q : ps p < pe p -> ps q < pe q ->
+  (shares_base [p] [q] <-> ps p < pe q /\ ps q < pe p).
+Proof.
+  intros Hp Hq. unfold shares_base, L.base_of. split.
+  - intros (x & (a & [<-|[]] & Ha) & (b & [<-|[]] & Hb)). lia.
+  - intros H. exists (Z.max (ps p) (ps q)). split; eexists; (split; [left; reflexivity|lia]).
+Qed.
+
+Lemma simple_coll_lt p q : ps p < pe p -> ps q < pe q -> overlap [p] [q] = false ->
+  coll_lt [p] [q] = (pe p <=? ps q) /\ (coll_lt [p] [q] = false -> pe q <= ps p).
+Proof.
+  intros Hp Hq Ho.
+  assert (Hd : ~ (ps p < pe q /\ ps q < pe p)) by (intros H; apply (simple_overlap p q Hp Hq) in H; congruence).
+  unfold coll_lt, kstart. cbn [bridges is_compound contains forallb existsb lstart llen map lmin fold_left fold_right].
+  unfold part_contains.
+  match goal with |- context [if ?c then _ else _] => destruct c eqn:E end; split; try intros H; lia.
+Qed.
+
+Lemma lstart1 p : lstart [p] = ps p. Proof. reflexivity. Qed.
+Lemma lend1 p : lend [p] = pe p. Proof. reflexivity. Qed.
+
+Lemma add_scan_spec N new : ps new < pe new -> forall regs i,
+  Forall (simple_reg N) regs -> sorted_disjoint regs ->
+  ((exists ex, In ex regs /\ shares_base [new] (rloc ex)) -> add_scan [new] regs i = Err E_Value) /\
+  (~ (exists ex, In ex regs /\ shares_base [new] (rloc ex)) ->
+   exists k, add_scan [new] regs i = Ok (i + k)%nat /\ (k <= length regs)%nat /\
+             Forall (fun a => lend (rloc a) <= ps new) (firstn k regs) /\
+             Forall (fun b => pe new <= lstart (rloc b)) (skipn k regs)).
+Proof.
+  intros Hn. induction regs as [|ex regs IH]; intros i Hs Hsd.
+  - split; [intros (ex & [] & _)|]. intros _. exists 0%nat. cbn. rewrite Nat.add_0_r. repeat split; auto.
+  - inversion Hs as [|? ? (q & Hq & Hq0 & Hq1 & Hq2) Hs']; subst. destruct Hsd as [Hall Hsd'].
+    cbn [add_scan]. rewrite Hq.
+    destruct (overlap [new] [q]) eqn:Ho.
+    + split; [reflexivity|]. intros Hno. exfalso. apply Hno. exists ex. split; [left; reflexivity|].
+      rewrite Hq. apply simple_shares; [lia|lia|]. apply simple_overlap; assumption.
+    + assert (Hnsh : ~ shares_base [new] [q]).
+      { intros H. apply simple_shares in H; [|lia|lia]. apply (simple_overlap new q) in H; [congruence|lia|lia]. }
+      destruct (simple_coll_lt new q Hn Hq1 Ho) as [Hlt Hge].
+      destruct (coll_lt [new] [q]) eqn:Hc.
+      * (* the new region lies before ex, hence before every later region *)
+        assert (Hbefore : pe new <= ps q) by lia.
+        split.
+        -- intros (ex' & [<-|Hin] & Hsh); [rewrite Hq in Hsh; contradiction|].
+           exfalso. rewrite Forall_forall in Hall, Hs'. specialize (Hall ex' Hin).
+           destruct (Hs' ex' Hin) as (q' & Hq' & ? & ? & ?). rewrite Hq' in Hsh, Hall. rewrite Hq in Hall.
+           apply simple_shares in Hsh; [|lia|lia]. rewrite lend1, lstart1 in Hall. lia.
+        -- intros _. exists 0%nat. rewrite Nat.add_0_r. cbn [firstn skipn length]. repeat split; [lia|constructor|].
+           constructor; [rewrite Hq, lstart1; lia|].
+           rewrite Forall_forall in Hall, Hs'. apply Forall_forall. intros b Hb.
+           specialize (Hall b Hb). destruct (Hs' b Hb) as (q' & Hq' & ? & ? & ?).
+           rewrite Hq' in *. rewrite Hq in Hall. rewrite lend1, lstart1 in *. lia.
+      * specialize (Hge eq_refl).
+        destruct (IH (S i) Hs' Hsd') as [IH1 IH2]. split.
+        -- intros (ex' & [<-|Hin] & Hsh); [rewrite Hq in Hsh; contradiction|]. apply IH1. exists ex'. split; assumption.
+        -- intros Hno. destruct IH2 as (k & Hk & Hlen & Hf & Hsk).
+           { intros (ex' & Hin & Hsh). apply Hno. exists ex'. split; [right; assumption|assumption]. }
+           exists (S k). rewrite Hk. cbn [firstn skipn length]. repeat split; [f_equal; lia|lia| |assumption].
+           constructor; [rewrite Hq, lend1; lia|assumption].
+Qed.
+
+Lemma sorted_disjoint_app_inv : forall l1 l2, sorted_disjoint (l1 ++ l2) -> sorted_disjoint l1 /\ sorted_disjoint l2 /\
+  forall a b, In a l1 -> In b l2 -> lend (rloc a) <= lstart (rloc b).
+Proof.
+  induction l1 as [|x l1 IH]; intros l2 H; cbn [app sorted_disjoint] in *.
+  - repeat split; auto. intros a b [].
+  - destruct H as [Hall H]. destruct (IH l2 H) as (H1 & H2 & H3). apply Forall_app in Hall. destruct Hall as [Ha1 Ha2].
+    repeat split; auto. intros a b [<-|Ha] Hb; [rewrite Forall_forall in Ha2; apply Ha2; assumption|apply H3; assumption].
+Qed.
+
+Lemma sorted_disjoint_insert : forall l1 l2 r,
+  sorted_disjoint (l1 ++ l2) -> lstart (rloc r) <= lend (rloc r) ->
+  Forall (fun a => lend (rloc a) <= lstart (rloc r)) l1 ->
+  Forall (fun b => lend (rloc r) <= lstart (rloc b)) l2 ->
+  sorted_disjoint (l1 ++ r :: l2).
+Proof.
+  induction l1 as [|x l1 IH]; intros l2 r H Hr H1 H2; cbn [app sorted_disjoint] in *.
+  - split; assumption.
+  - destruct H as [Hall H]. inversion H1; subst. split; [|apply IH; assumption].
+    apply Forall_app in Hall. destruct Hall as [Ha1 Ha2]. apply Forall_app. split; [assumption|].
+    constructor; [assumption|]. eapply Forall_impl; [|exact H2]. cbn. intros; lia.
+Qed.
+
+Lemma Forall_firstn_ {A} (P : A -> Prop) : forall n l, Forall P l -> Forall P (firstn n l).
+Proof. induction n; intros l H; cbn; [constructor|]. destruct l; [constructor|]. inversion H; subst. constructor; auto. Qed.
+Lemma Forall_skipn_ {A} (P : A -> Prop) : forall n l, Forall P l -> Forall P (skipn n l).
+Proof. induction n; intros l H; cbn; [assumption|]. destruct l; [constructor|]. inversion H; subst. auto. Qed.
+
+Lemma add_region_linear N regs r :
+  Forall (simple_reg N) regs -> simple_reg N r -> sorted_disjoint regs ->
+  ((exists ex, In ex regs /\ shares_base (rloc r) (rloc ex)) -> add_region N regs r = Err E_Value) /\
+  (~ (exists ex, In ex regs /\ shares_base (rloc r) (rloc ex)) ->
+   exists i, (i <= length regs)%nat /\ add_region N regs r = Ok (insert_at i r regs) /\
+             sorted_disjoint (insert_at i r regs) /\ Forall (simple_reg N) (insert_at i r regs)).
+Proof.
+  intros Hs (p & Hp & Hp0 & Hp1 & Hp2) Hsd. unfold add_region. rewrite Hp, lstart1, lend1.
+  replace ((ps p <? 0) || (N <? pe p)) with false by lia.
+  destruct (add_scan_spec N p Hp1 regs 0%nat Hs Hsd) as [H1 H2]. split.
+  - intros H. rewrite (H1 H). reflexivity.
+  - intros H. destruct (H2 H) as (k & Hk & Hlen & Hf & Hsk). exists k. rewrite Hk. cbn [bind Nat.add].
+    split; [assumption|]. split; [reflexivity|]. unfold insert_at. split.
+    + apply sorted_disjoint_insert; [rewrite firstn_skipn; assumption|rewrite Hp, lstart1, lend1; lia| |];
+        rewrite Hp, ?lstart1, ?lend1; assumption.
+    + apply Forall_app. split; [apply Forall_firstn_; assumption|].
+      constructor; [exists p; auto|apply Forall_skipn_; assumption].
+Qed.
+
+(* ====================================================================================
+   Parent / region links: no history leaves a stale link
+   ==================================================================================== *)
+Lemma lget_set_all xs v : forall m x, lget x (lset_all xs v m) = if existsb (Z.eqb x) xs then v else lget x m.
+Proof.
+  unfold lset_all. induction xs as [|y xs IH]; intros m x; cbn [fold_left existsb]; [reflexivity|].
+  rewrite IH. destruct (existsb (Z.eqb x) xs); [rewrite orb_true_r; reflexivity|]. rewrite orb_false_r.
+  cbn [lget]. reflexivity.
+Qed.
+Lemma existsb_eqb_In x xs : existsb (Z.eqb x) xs = true <-> In x xs.
+Proof. rewrite existsb_exists. split; [intros (y & Hy & E); apply Z.eqb_eq in E; subst; assumption|intros H; exists x; split; [assumption|apply Z.eqb_refl]]. Qed.
+
+(* resetting every key of every group to None *)
+Lemma lget_reset_groups {A} (keys : A -> list Z) : forall (gs : list A) m x,
+  lget x (fold_left (fun m g => lset_all (keys g) None m) gs m)
+  = if existsb (fun g => existsb (Z.eqb x) (keys g)) gs then None else lget x m.
+Proof.
+  induction gs as [|g gs IH]; intros m x; cbn [fold_left existsb]; [reflexivity|].
+  rewrite IH, lget_set_all. destruct (existsb (Z.eqb x) (keys g)); cbn [orb]; [|reflexivity].
+  destruct (existsb _ gs); reflexivity.
+Qed.
+
+Definition linv (st : lstate) : Prop :=
+  (forall x c, lget x (l_pparent st) = Some c -> exists ch, In (c, ch) (l_cands st) /\ In x ch) /\
+  (forall x r, lget x (l_aparent st) = Some r -> exists reg, In reg (l_regions st) /\ lr_id reg = r /\ In x (lr_members reg)) /\
+  (forall g r, lget g (l_cdsreg st) = Some r -> exists reg, In reg (l_regions st) /\ lr_id reg = r /\ In g (lr_cds reg)).
+
+Lemma linv_empty : linv l_empty.
+Proof. repeat split; intros; discriminate. Qed.
+
+Lemma linv_create : forall gs st, linv st -> linv (l_create gs st).
+Proof.
+  induction gs as [|[ms cds] gs IH]; intros st Hinv; cbn [l_create]; [exact Hinv|].
+  apply IH. destruct Hinv as (H1 & H2 & H3). repeat split; cbn [l_pparent l_aparent l_cdsreg l_cands l_regions].
+  - exact H1.
+  - intros x r. rewrite lget_set_all. destruct (existsb (Z.eqb x) ms) eqn:E.
+    + intros Hr. inversion Hr; subst. eexists. split; [apply in_or_app; right; left; reflexivity|].
+      cbn. split; [reflexivity|apply existsb_eqb_In; exact E].
+    + intros Hr. destruct (H2 x r Hr) as (reg & Hin & Hid & Hm). exists reg. split; [apply in_or_app; left; exact Hin|tauto].
+  - intros g r. rewrite lget_set_all. destruct (existsb (Z.eqb g) cds) eqn:E.
+    + intros Hr. inversion Hr; subst. eexists. split; [apply in_or_app; right; left; reflexivity|].
+      cbn. split; [reflexivity|apply existsb_eqb_In; exact E].
+    + intros Hr. destruct (H3 g r Hr) as (reg & Hin & Hid & Hm). exists reg. split; [apply in_or_app; left; exact Hin|tauto].
+Qed.
+
+Lemma linv_clear_regions st : linv st -> linv (l_clear_regions st).
+Proof.
+  intros (H1 & H2 & H3). unfold l_clear_regions. repeat split; cbn [l_pparent l_aparent l_cdsreg l_cands l_regions].
+  - exact H1.
+  - intros x r. rewrite lget_reset_groups. destruct (existsb _ (l_regions st)) eqn:E; [discriminate|].
+    intros Hr. exfalso. destruct (H2 x r Hr) as (reg & Hin & _ & Hm).
+    assert (existsb (fun g => existsb (Z.eqb x) (lr_members g)) (l_regions st) = true); [|congruence].
+    apply existsb_exists. exists reg. split; [exact Hin|apply existsb_eqb_In; exact Hm].
+  - intros g r. rewrite lget_reset_groups. destruct (existsb _ (l_regions st)) eqn:E; [discriminate|].
+    intros Hr. exfalso. destruct (H3 g r Hr) as (reg & Hin & _ & Hm).
+    assert (existsb (fun q => existsb (Z.eqb g) (lr_cds q)) (l_regions st) = true); [|congruence].
+    apply existsb_exists. exists reg. split; [exact Hin|apply existsb_eqb_In; exact Hm].
+Qed.
+
+Lemma linv_recreate gs st : linv st -> linv (l_recreate gs st).
+Proof.
+  intros H. unfold l_recreate. destruct (l_regions st) eqn:E; [exact H|].
+  apply linv_create. apply linv_clear_regions. exact H.
+Qed.
+
+Lemma linv_clear_cands gs st : linv st -> linv (l_clear_cands gs st).
+Proof.
+  intros (H1 & H2 & H3). unfold l_clear_cands. apply linv_recreate.
+  repeat split; cbn [l_pparent l_aparent l_cdsreg l_cands l_regions]; [|exact H2|exact H3].
+  intros x c. rewrite lget_reset_groups. destruct (existsb _ (l_cands st)) eqn:E; [discriminate|].
+  intros Hr. exfalso. destruct (H1 x c Hr) as (ch & Hin & Hx).
+  assert (existsb (fun g : Z * list Z => existsb (Z.eqb x) (snd g)) (l_cands st) = true); [|congruence].
+  apply existsb_exists. exists (c, ch). split; [exact Hin|apply existsb_eqb_In; exact Hx].
+Qed.
+
+Lemma linv_apply st o : linv st -> linv (l_apply st o).
+Proof.
+  intros H. destruct o as [p|c ch|s|gs| |gs|gs|gs]; cbn [l_apply].
+  - destruct H as (H1 & H2 & H3). repeat split; assumption.
+  - destruct H as (H1 & H2 & H3). repeat split; cbn [l_pparent l_aparent l_cdsreg l_cands l_regions]; [|exact H2|exact H3].
+    intros x c'. rewrite lget_set_all. destruct (existsb (Z.eqb x) ch) eqn:E.
+    + intros Hr. inversion Hr; subst. exists ch. split; [left; reflexivity|apply existsb_eqb_In; exact E].
+    + intros Hr. destruct (H1 x c' Hr) as (ch' & Hin & Hx). exists ch'. split; [right; exact Hin|exact Hx].
+  - destruct H as (H1 & H2 & H3). repeat split; assumption.
+  - apply linv_create; exact H.
+  - apply linv_clear_regions; exact H.
+  - apply linv_clear_cands; exact H.
+  - unfold l_clear_subs. apply linv_recreate. destruct H as (H1 & H2 & H3). repeat split; assumption.
+  - apply linv_clear_cands. destruct H as (H1 & H2 & H3). repeat split; assumption.
+Qed.
+
+Lemma linv_history : forall ops st, linv st -> linv (fold_left l_apply ops st).
+Proof. induction ops as [|o ops IH]; intros st H; cbn [fold_left]; [exact H|]. apply IH. apply linv_apply. exact H. Qed.
+
+Lemma no_stale_links : forall ops, let st := fold_left l_apply ops l_empty in
+  (forall p c, lget p (l_pparent st) = Some c -> In c (map fst (l_cands st))) /\
+  (forall a r, lget a (l_aparent st) = Some r -> In r (map lr_id (l_regions st))) /\
+  (forall g r, lget g (l_cdsreg st) = Some r -> In r (map lr_id (l_regions st))).
+Proof.
+  intros ops st. destruct (linv_history ops l_empty linv_empty) as (H1 & H2 & H3). fold st in H1, H2, H3. repeat split.
+  - intros p c Hr. destruct (H1 p c Hr) as (ch & Hin & _). apply in_map_iff. exists (c, ch). split; [reflexivity|exact Hin].
+  - intros a r Hr. destruct (H2 a r Hr) as (reg & Hin & Hid & _). apply in_map_iff. exists reg. split; assumption.
+  - intros g r Hr. destruct (H3 g r Hr) as (reg & Hin & Hid & _). apply in_map_iff. exists reg. split; assumption.
+Qed.
+
+Lemma add_region_ring_counterexample : exists N regs r,
+  (exists ex, In ex regs /\ shares_base (rloc r) (rloc ex)) /\ exists regs', add_region N regs r = Ok regs'.
+Proof.
+  pose (mk := fun l => mkCR l [] [mkCA 0 0 l]).
+  exists 1000, [mk [mkPart 50 150 1]; mk [mkPart 400 500 1]; mk [mkPart 800 950 1]], (mk [mkPart 900 1000 1; mkPart 0 20 1]).
+  split.
+  - exists (mk [mkPart 800 950 1]). split; [right; right; left; reflexivity|].
+    exists 920. split; eexists; (split; [left; reflexivity|cbn; lia]).
+  - eexists. vm_compute. reflexivity.
+Qed.
+
+(* ====================================================================================
+   Circular records without origin-spanning areas: create_regions finds the same sections as on
+   a linear record (so C06_components_linear applies)
+   ==================================================================================== *)
+Section TwoLocations.
+Variables (N : Z) (a b : part).
+Hypotheses (Ha1 : ps a < pe a) (Hb0 : 0 <= ps b) (Hb1 : ps b < pe b) (Hb2 : pe b <= N)
+           (Ho1 : ps a < pe b) (Ho2 : ps b < pe a).
+
+Lemma ws2 : wrapping_shorter [[a]; [b]] N = false.
+Proof.
+  assert (0 <= N / 2) by (apply Z.div_pos; lia).
+  unfold wrapping_shorter. cbn [existsb bridges is_compound orb].
+  unfold sort_by. cbn [fold_left insert_by]. unfold key_lt. cbn [lstart lend map lmin lmax fold_left].
+  destruct ((ps b <? ps a) || (ps b =? ps a) && (pe b <? pe a)); cbn [existsb lstart lend map lmin lmax fold_left]; lia.
+Qed.
+
+Lemma split2 : split_sections [[a]; [b]] N = Ok ([[a]; [b]], []).
+Proof. unfold split_sections. rewrite ws2. reflexivity. Qed.
+
+Definition h2 := mkPart (Z.min (ps a) (ps b)) (Z.max (pe a) (pe b)) (common_strand [[a]; [b]]).
+
+Lemma line2 : connect_line [[a]; [b]] = Ok [h2].
+Proof.
+  unfold connect_line. cbn [existsb bridges is_compound orb mapM reduce_parts bind].
+  unfold hull, mkFL. cbn [map lstart lend lmin lmax fold_left ps pe].
+  replace (Z.max (pe a) (pe b) <? Z.min (ps a) (ps b)) with false by lia. reflexivity.
+Qed.
+
+Lemma moo2 : merge_over_origin [[a]; [b]] N = Ok [[h2]].
+Proof. unfold merge_over_origin. rewrite split2. cbn [bind]. rewrite line2. reflexivity. Qed.
+
+Lemma connect2 f : connect (S f) [[a]; [b]] (Some N) = Ok [h2].
+Proof.
+  cbn [connect existsb bridges is_compound orb mapM reduce_parts bind].
+  destruct (N <=? 0) eqn:E; [lia|].
+  change (@cons loc) with (@cons (list part)); change (@nil loc) with (@nil (list part)). rewrite moo2. reflexivity.
+Qed.
+
+Lemma connect2_line f : connect (S f) [[a]; [b]] None = Ok [h2].
+Proof.
+  cbn [connect existsb bridges is_compound orb mapM reduce_parts bind].
+  unfold hull, mkFL. cbn [map lstart lend lmin lmax fold_left ps pe].
+  replace (Z.max (pe a) (pe b) <? Z.min (ps a) (ps b)) with false by lia. reflexivity.
+Qed.
+End TwoLocations.
+
+Definition simple_area (N : Z) (a : carea) : Prop := exists p, cloc a = [p] /\ 0 <= ps p /\ ps p < pe p /\ pe p <= N.
+Definition area_of (a : carea) : itv := mkItv (lstart (cloc a)) (lend (cloc a)).
+Definition lin_of_sec (sec : loc * list carea) : Z * Z * list itv := (lstart (fst sec), lend (fst sec), map area_of (snd sec)).
+Definition grp_of_sec (sec : loc * list carea) : group := (lstart (fst sec), lend (fst sec), rev (map area_of (snd sec))).
+Definition lin_of_grp (g : group) : Z * Z * list itv := let '(cs, he, ms) := g in (cs, he, rev ms).
+Definition sec_simple (sec : loc * list carea) : Prop := exists q, fst sec = [q] /\ ps q < pe q.
+
+Lemma connect_two N w p q : w = None \/ w = Some N ->
+  ps q < pe q -> 0 <= ps p -> ps p < pe p -> pe p <= N -> ps q < pe p -> ps p < pe q ->
+  connect_locations [[q]; [p]] w = Ok [h2 q p].
+Proof.
+  intros [->| ->] H1 H2 H3 H4 H5 H6; unfold connect_locations, connect_fuel; cbn [length Nat.mul Nat.add].
+  - apply connect2_line; assumption.
+  - apply (connect2 N q p); assumption.
+Qed.
+
+Lemma coll_lt_simple p q : ps p <= pe p -> ps q <= pe q ->
+  coll_lt [p] [q] = area_lt (mkItv (ps p) (pe p)) (mkItv (ps q) (pe q)).
+Proof.
+  intros Hp Hq. unfold coll_lt, kstart, area_lt.
+  cbn [bridges is_compound contains forallb existsb lstart llen map lmin fold_left fold_right s e].
+  unfold part_contains.
+  match goal with |- context [if ?c then _ else _] => destruct c eqn:E end; lia.
+Qed.
+
+Lemma step_overlap N p q ms rest : 0 <= ps p -> ps p < pe p -> pe p <= N -> ps q < pe q ->
+  step N 0 ((ps p, pe p, ms) :: rest) (mkItv (ps q) (pe q))
+  = if overlap [q] [p] then (Z.min (ps p) (ps q), Z.max (pe p) (pe q), mkItv (ps q) (pe q) :: ms) :: rest
+    else (ps q, pe q, [mkItv (ps q) (pe q)]) :: (ps p, pe p, ms) :: rest.
+Proof.
+  intros H0 H1 H2 Hq. unfold step. cbn [s e].
+  destruct (overlap [q] [p]) eqn:Ho.
+  - apply simple_overlap in Ho; [|lia|lia]. replace ((ps q <? Z.min N (pe p + 0)) && (Z.max 0 (ps p - 0) <? pe q)) with true by lia. reflexivity.
+  - assert (~ (ps q < pe p /\ ps p < pe q)) by (intros H; apply (simple_overlap q p) in H; [congruence|lia|lia]).
+    replace ((ps q <? Z.min N (pe p + 0)) && (Z.max 0 (ps p - 0) <? pe q)) with false by lia. reflexivity.
+Qed.
+
+Lemma lin_grp_sec sec : lin_of_grp (grp_of_sec sec) = lin_of_sec sec.
+Proof. unfold lin_of_grp, grp_of_sec, lin_of_sec. rewrite rev_involutive. reflexivity. Qed.
+
+Lemma csweep_sim N w : w = None \/ w = Some N -> forall areas location incl_rev secs_rev p,
+  Forall (simple_area N) areas -> location = [p] -> 0 <= ps p -> ps p < pe p -> pe p <= N ->
+  exists final, csweep w location incl_rev secs_rev areas = Ok final /\
+    map lin_of_sec final
+    = map lin_of_grp (rev (fold_left (step N 0) (map area_of areas)
+                                     ((ps p, pe p, map area_of incl_rev) :: map grp_of_sec secs_rev))) /\
+    (Forall sec_simple secs_rev -> Forall sec_simple final).
+Proof.
+  intros Hw. induction areas as [|a r IH]; intros location incl_rev secs_rev p Hs -> Hp0 Hp1 Hp2.
+  - cbn [csweep map fold_left]. eexists. split; [reflexivity|]. split.
+    + rewrite (map_rev lin_of_sec), (map_rev lin_of_grp). f_equal. cbn [map]. f_equal.
+      * unfold lin_of_sec, lin_of_grp. cbn [fst snd]. rewrite map_rev. reflexivity.
+      * rewrite map_map. apply map_ext. intros sec. symmetry. apply lin_grp_sec.
+    + intros Hf. apply Forall_rev. constructor; [exists p; split; [reflexivity|assumption]|assumption].
+  - inversion Hs as [|? ? (q & Hq & Hq0 & Hq1 & Hq2) Hs']; subst.
+    cbn [csweep map fold_left]. rewrite Hq.
+    assert (Ha : area_of a = mkItv (ps q) (pe q)) by (unfold area_of; rewrite Hq; reflexivity).
+    rewrite Ha, step_overlap by assumption.
+    destruct (overlap [q] [p]) eqn:Ho; cbn [negb].
+    + pose proof Ho as Ho'. apply simple_overlap in Ho'; [|lia|lia]. destruct Ho' as [Ho1 Ho2].
+      change (@cons loc) with (@cons (list part)); change (@nil loc) with (@nil (list part)).
+      rewrite (connect_two N w p q Hw) by assumption. cbn [bind].
+      destruct (IH [h2 q p] (a :: incl_rev) secs_rev (h2 q p) Hs' eq_refl) as (final & Hf & Hm & Hsimple);
+        [cbn; lia|cbn; lia|cbn; lia|].
+      exists final. split; [exact Hf|]. split; [|exact Hsimple].
+      rewrite Hm. cbn [h2 ps pe map]. rewrite Ha, (Z.min_comm (ps q)), (Z.max_comm (pe q)). reflexivity.
+    + destruct (IH [q] [a] (([p], rev incl_rev) :: secs_rev) q Hs' eq_refl Hq0 Hq1 Hq2) as (final & Hf & Hm & Hsimple).
+      exists final. split; [exact Hf|]. split.
+      * rewrite Hm. cbn [map]. rewrite Ha. unfold grp_of_sec at 1. cbn [fst snd lstart lend map lmin lmax fold_left].
+        rewrite (map_rev area_of), rev_involutive. reflexivity.
+      * intros Hsec. apply Hsimple. constructor; [exists p; split; [reflexivity|assumption]|assumption].
+Qed.
+
+Lemma csweep_members (P : carea -> Prop) w : forall areas location incl_rev secs_rev final,
+  Forall P areas -> Forall P incl_rev -> Forall (fun sec => Forall P (snd sec)) secs_rev ->
+  csweep w location incl_rev secs_rev areas = Ok final -> Forall (fun sec => Forall P (snd sec)) final.
+Proof.
+  induction areas as [|a r IH]; intros location incl_rev secs_rev final Ha Hi Hs; cbn [csweep].
+  - intros H. injection H as <-. apply Forall_app. split; [apply Forall_rev; exact Hs|].
+    constructor; [cbn [snd]; apply Forall_rev; exact Hi|constructor].
+  - inversion Ha; subst. destruct (negb (overlap (cloc a) location)).
+    + apply IH; [assumption|constructor; [assumption|constructor]|].
+      constructor; [cbn [snd]; apply Forall_rev; exact Hi|exact Hs].
+    + destruct (connect_locations [cloc a; location] w) as [l|k]; cbn [bind]; [|discriminate].
+      apply IH; [assumption|constructor; assumption|assumption].
+Qed.
+
+Lemma insert_by_map {A B} (f : A -> B) (lt : A -> A -> bool) (lt' : B -> B -> bool) (P : A -> Prop) :
+  (forall x y, P x -> P y -> lt x y = lt' (f x) (f y)) ->
+  forall x l, P x -> Forall P l ->
+  map f (insert_by lt x l) = insert_by lt' (f x) (map f l) /\ Forall P (insert_by lt x l).
+Proof.
+  intros H x. induction l as [|y l IH]; intros Hx Hl; cbn [insert_by map].
+  - split; [reflexivity|constructor; auto].
+  - inversion Hl; subst. rewrite <- H by assumption. destruct (lt x y); cbn [map].
+    + split; [reflexivity|constructor; assumption].
+    + destruct (IH Hx H3) as [E F]. rewrite E. split; [reflexivity|constructor; assumption].
+Qed.
+
+Lemma sort_by_map {A B} (f : A -> B) (lt : A -> A -> bool) (lt' : B -> B -> bool) (P : A -> Prop) :
+  (forall x y, P x -> P y -> lt x y = lt' (f x) (f y)) ->
+  forall l, Forall P l -> map f (sort_by lt l) = sort_by lt' (map f l) /\ Forall P (sort_by lt l).
+Proof.
+  intros H. unfold sort_by.
+  assert (G : forall l acc, Forall P l -> Forall P acc ->
+              map f (fold_left (fun acc x => insert_by lt x acc) l acc)
+              = fold_left (fun acc x => insert_by lt' x acc) (map f l) (map f acc) /\
+              Forall P (fold_left (fun acc x => insert_by lt x acc) l acc)).
+  { induction l as [|x l IH]; intros acc Hl Hacc; cbn [fold_left map]; [split; [reflexivity|assumption]|].
+    inversion Hl; subst. destruct (insert_by_map f lt lt' P H x acc H2 Hacc) as [E F].
+    destruct (IH (insert_by lt x acc) H3 F) as [E' F']. rewrite E', E. split; [reflexivity|assumption]. }
+  intros l Hl. apply (G l []); [assumption|constructor].
+Qed.
+
+Lemma hulls_first_last : forall gs, hulls_ordered gs -> forall f rest x, rev gs = f :: rest -> In x rest ->
+  snd (fst f) <= fst (fst x).
+Proof.
+  intros gs Hord f rest x Hrev Hin.
+  assert (Hgs : gs = rev rest ++ [f]) by (rewrite <- (rev_involutive gs), Hrev; reflexivity).
+  rewrite Hgs in Hord. apply ho_app_last in Hord. rewrite Forall_forall in Hord. apply Hord. apply -> in_rev. exact Hin.
+Qed.
+
+Lemma simple_area_wf N a : simple_area N a -> wf N (area_of a).
+Proof. intros (p & Hp & H0 & H1 & H2). unfold area_of, wf. rewrite Hp. cbn. lia. Qed.
+
+Lemma ring_sections_linear N circular cands subs : Forall (simple_area N) (cands ++ subs) ->
+  exists secs, csections (wrap_of N circular) cands subs = Ok secs /\
+               map lin_of_sec secs = regions N (map area_of (cands ++ subs)) /\ Forall sec_simple secs /\
+               Forall (fun sec => Forall (simple_area N) (snd sec)) secs.
+Proof.
+  intros Hs.
+  assert (Hw : wrap_of N circular = None \/ wrap_of N circular = Some N) by (destruct circular; cbn; auto).
+  assert (Hwf : Forall (wf N) (map area_of (cands ++ subs))).
+  { apply Forall_forall. intros i Hi. apply in_map_iff in Hi. destruct Hi as (a & <- & Ha).
+    apply simple_area_wf. rewrite Forall_forall in Hs. apply Hs. exact Ha. }
+  rewrite (regions_are_sections N _ Hwf).
+  destruct (sort_by_map area_of (fun a b => coll_lt (cloc a) (cloc b)) area_lt (simple_area N)) with (l := cands ++ subs)
+    as [Hsort Hsimple]; [|exact Hs|].
+  { intros x y (p & Hp & ? & ? & ?) (q & Hq & ? & ? & ?). unfold area_of. rewrite Hp, Hq. apply coll_lt_simple; lia. }
+  unfold csections, sections. rewrite <- Hsort.
+  destruct (sort_by _ (cands ++ subs)) as [|a r] eqn:Hsorted.
+  - exists []. repeat split; constructor.
+  - inversion Hsimple as [|? ? (p & Hp & Hp0 & Hp1 & Hp2) Hr]; subst.
+    assert (Hasimple : simple_area N a) by (exists p; auto).
+    destruct (csweep_sim N _ Hw r (cloc a) [a] [] p Hr Hp Hp0 Hp1 Hp2) as (final & Hf & Hm & Hfs).
+    rewrite Hf. cbn [bind].
+    assert (Hsw : sweep N 0 (map area_of (a :: r)) = fold_left (step N 0) (map area_of r) [(ps p, pe p, [area_of a])]).
+    { assert (Hsi : s (area_of a) = ps p /\ e (area_of a) = pe p) by (unfold area_of; rewrite Hp; split; reflexivity).
+      unfold sweep. cbn [map fold_left]. f_equal. unfold step. destruct Hsi as [-> ->]. reflexivity. }
+    assert (Hm' : map lin_of_sec final = map lin_of_grp (rev (sweep N 0 (map area_of (a :: r))))) by (rewrite Hsw; exact Hm).
+    clear Hm. rename Hm' into Hm.
+    specialize (Hfs (Forall_nil _)).
+    (* the first/last merge does not fire *)
+    assert (Hfix : cfixup (wrap_of N circular) final = Ok final).
+    { unfold cfixup. destruct final as [|[floc fareas] [|r1 rest]]; try reflexivity.
+      destruct (last_opt (r1 :: rest)) as [[lloc lareas]|] eqn:Hl; [|reflexivity].
+      apply last_opt_In in Hl.
+      assert (Hord : hulls_ordered (sweep N 0 (map area_of (a :: r)))).
+      { rewrite Hsort. destruct (sections_spec N _ Hwf) as (_ & _ & _ & lo & Hinv). eapply inv_hulls_ordered. exact Hinv. }
+      destruct (rev (sweep N 0 (map area_of (a :: r)))) as [|g0 grest] eqn:Hrev; [discriminate|].
+      cbn [map] in Hm. injection Hm as Hg0 Hrest.
+      assert (Hx : In (lin_of_sec (lloc, lareas)) (map lin_of_grp grest)).
+      { rewrite <- Hrest. apply (in_map lin_of_sec (r1 :: rest)). exact Hl. }
+      apply in_map_iff in Hx. destruct Hx as (x & Hxeq & Hxin).
+      pose proof (hulls_first_last _ Hord g0 grest x Hrev Hxin) as Hle.
+      rewrite Forall_forall in Hfs.
+      destruct (Hfs (floc, fareas)) as (qf & Hqf & Hqf1); [left; reflexivity|].
+      destruct (Hfs (lloc, lareas)) as (ql & Hql & Hql1); [right; exact Hl|].
+      cbn [fst] in Hqf, Hql. subst floc lloc.
+      destruct g0 as [[c0 h0] m0], x as [[cx hx] mx]. unfold lin_of_sec, lin_of_grp in Hg0, Hxeq. cbn [fst snd] in *.
+      inversion Hg0; inversion Hxeq; subst.
+      replace (overlap [qf] [ql]) with false; [reflexivity|].
+      symmetry. destruct (overlap [qf] [ql]) eqn:Ho; [|reflexivity]. apply simple_overlap in Ho; [|lia|lia].
+      rewrite lend1, lstart1 in Hle. lia. }
+    exists final. split; [exact Hfix|]. split; [|split; [exact Hfs|]].
+    + rewrite Hm. reflexivity.
+    + eapply (csweep_members (simple_area N)); [exact Hr|constructor; [exact Hasimple|constructor]|constructor|exact Hf].
+Qed.
+
+Lemma ring_counterexamples :
+  (exists N supply, record_regions N true supply = Err E_Value) /\
+  (exists N supply reg a b, record_regions N true supply = Ok [reg] /\ In a (rsubs reg) /\ In b (rsubs reg) /\
+     forall c, In c supply -> cid c <> cid b -> ~ shares_base (cloc b) (cloc c)).
+Proof.
+  split.
+  - exists 100, [mkCA 0 0 [mkPart 29 42 1]; mkCA 1 0 [mkPart 90 99 1]; mkCA 2 0 [mkPart 60 100 1; mkPart 0 24 1];
+                 mkCA 3 0 [mkPart 59 77 1]].
+    vm_compute. reflexivity.
+  - exists 1000, [mkCA 0 0 [mkPart 953 1000 1; mkPart 0 499 1]; mkCA 1 0 [mkPart 495 499 1]; mkCA 2 0 [mkPart 497 508 1];
+                  mkCA 3 0 [mkPart 532 572 1]].
+    eexists. exists (mkCA 0 0 [mkPart 953 1000 1; mkPart 0 499 1]), (mkCA 3 0 [mkPart 532 572 1]).
+    split; [vm_compute; reflexivity|]. split; [cbn; tauto|]. split; [cbn; tauto|].
+    intros c Hc Hne (x & (p & Hp & Hx) & (q & Hq & Hy)).
+    destruct Hp as [<-|[]]. cbn [ps pe] in Hx.
+    destruct Hc as [<-|[<-|[<-|[<-|[]]]]]; cbn [cloc cid] in *; try congruence;
+      repeat (destruct Hq as [<-|Hq]; [cbn [ps pe] in Hy; lia|]); destruct Hq.
+Qed.
+
+(* ---------- Region.__init__ and add_region on these sections: one region per section ---------- *)
+Definition sec_tight (N : Z) (sec : loc * list carea) : Prop :=
+  snd sec <> [] /\ Forall (simple_area N) (snd sec) /\
+  (forall a, In a (snd sec) -> lstart (fst sec) <= lstart (cloc a) /\ lend (cloc a) <= lend (fst sec)) /\
+  (exists a, In a (snd sec) /\ lstart (cloc a) = lstart (fst sec)) /\
+  (exists a, In a (snd sec) /\ lend (cloc a) = lend (fst sec)).
+
+Lemma simple_locs_of N l : Forall (simple_area N) l ->
+  L.simple_locs (map cloc l) /\ Forall L.wf_loc (map cloc l).
+Proof.
+  induction 1 as [|a l (p & Hp & H0 & H1 & H2) _ [IH1 IH2]]; cbn [map]; split; try constructor; try assumption.
+  - exists p. exact Hp.
+  - rewrite Hp. split; [discriminate|]. constructor; [exact H1|constructor].
+Qed.
+
+Lemma region_init_simple N cs ss c0 h0 :
+  ss ++ cs <> [] -> Forall (simple_area N) (ss ++ cs) ->
+  (forall a, In a (ss ++ cs) -> c0 <= lstart (cloc a) /\ lend (cloc a) <= h0) ->
+  (exists a, In a (ss ++ cs) /\ lstart (cloc a) = c0) -> (exists a, In a (ss ++ cs) /\ lend (cloc a) = h0) ->
+  exists h, region_init cs ss = Ok (mkCR [h] cs ss) /\ ps h = c0 /\ pe h = h0 /\ 0 <= c0 /\ c0 < h0 /\ h0 <= N.
+Proof.
+  intros Hne Hs Hb (amin & Hamin & Hmin) (amax & Hamax & Hmax).
+  unfold region_init. remember (ss ++ cs) as children eqn:Hch.
+  destruct children as [|ch0 chr]; [congruence|]. set (children := ch0 :: chr) in *.
+  destruct (simple_locs_of N children Hs) as [Hsl Hwl].
+  rewrite (L.existsb_bridges_simple _ Hsl).
+  destruct (L.connect_line_simple (map cloc children)) as (h & Hc & Hps & Hpe & _ & Hlt); [discriminate|assumption|assumption|].
+  rewrite Hc. cbn [bind is_compound].
+  assert (Hh0 : ps h = c0).
+  { rewrite Hps. apply Z.le_antisymm.
+    - apply L.lmin_le. rewrite map_map. apply in_map_iff. exists amin. split; assumption.
+    - assert (Hin : In (lmin (map lstart (map cloc children))) (map lstart (map cloc children))) by (apply L.lmin_in; discriminate).
+      rewrite map_map in Hin. apply in_map_iff in Hin. destruct Hin as (x & Hx & Hxin). rewrite map_map, <- Hx. apply Hb. exact Hxin. }
+  assert (Hh1 : pe h = h0).
+  { rewrite Hpe. apply Z.le_antisymm.
+    - assert (Hin : In (lmax (map lend (map cloc children))) (map lend (map cloc children))) by (apply L.lmax_in; discriminate).
+      rewrite map_map in Hin. apply in_map_iff in Hin. destruct Hin as (x & Hx & Hxin). rewrite map_map, <- Hx. apply Hb. exact Hxin.
+    - apply L.lmax_ge. rewrite map_map. apply in_map_iff. exists amax. split; assumption. }
+  assert (Hrange : 0 <= c0 /\ h0 <= N).
+  { rewrite Forall_forall in Hs. destruct (Hs amin Hamin) as (p & Hp & ? & ? & ?). destruct (Hs amax Hamax) as (q & Hq & ? & ? & ?).
+    rewrite Hp in Hmin. rewrite Hq in Hmax. rewrite lstart1 in Hmin. rewrite lend1 in Hmax. lia. }
+  cbn [all_same_strand forallb negb]. rewrite lstart1, lend1.
+  replace (pe h <? ps h) with false by lia. replace (ps h <? 0) with false by lia. cbn [andb].
+  assert (Hcont : forallb (fun c => contains [h] (cloc c)) children = true).
+  { apply forallb_forall. intros c Hc'. rewrite Forall_forall in Hs. destruct (Hs c Hc') as (q & Hq & ? & ? & ?).
+    destruct (Hb c Hc') as [Hb1 Hb2]. rewrite Hq in *. rewrite lstart1 in Hb1. rewrite lend1 in Hb2.
+    cbn [contains forallb existsb]. unfold part_contains. lia. }
+  rewrite Hcont. cbn [negb]. exists h. repeat split; try assumption; try lia.
+Qed.
+
+(* a list of sections in location order, pairwise disjoint *)
+Fixpoint secs_ordered (l : list (loc * list carea)) : Prop :=
+  match l with
+  | [] => True
+  | x :: t => Forall (fun y => lend (fst x) <= lstart (fst y)) t /\ secs_ordered t
+  end.
+
+Definition region_of_sec (sec : loc * list carea) : Z * Z * list carea * list carea :=
+  (lstart (fst sec), lend (fst sec), fst (split_kinds (snd sec)), snd (split_kinds (snd sec))).
+Definition region_view (r : cregion) : Z * Z * list carea * list carea := (lstart (rloc r), lend (rloc r), rcands r, rsubs r).
+
+Lemma split_kinds_perm l : Permutation (snd (split_kinds l) ++ fst (split_kinds l)) l.
+Proof.
+  unfold split_kinds. cbn [fst snd]. induction l as [|a l IH]; cbn [filter]; [constructor|].
+  destruct (ckind a =? 1); cbn [negb app].
+  - apply Permutation_sym. apply Permutation_cons_app. apply Permutation_sym. exact IH.
+  - constructor. exact IH.
+Qed.
+
+Lemma add_sections_simple N : forall secs regs,
+  Forall (simple_reg N) regs -> sorted_disjoint regs -> Forall (sec_tight N) secs -> secs_ordered secs ->
+  (forall r sec, In r regs -> In sec secs -> lend (rloc r) <= lstart (fst sec)) ->
+  exists regs', add_sections N regs secs = Ok regs' /\
+    map region_view regs' = map region_view regs ++ map region_of_sec secs /\
+    Forall (simple_reg N) regs' /\ sorted_disjoint regs'.
+Proof.
+  induction secs as [|[sl sareas] secs IH]; intros regs Hs Hsd Ht Ho Hbefore.
+  - exists regs. cbn [add_sections map]. rewrite app_nil_r. auto.
+  - inversion Ht as [|? ? (Hne & Hsimple & Hbounds & Hmin & Hmax) Ht']; subst. destruct Ho as [Hall Ho'].
+    cbn [add_sections fst snd] in *.
+    pose proof (split_kinds_perm sareas) as Hperm.
+    destruct (split_kinds sareas) as [cs ss] eqn:Hsk. cbn [fst snd] in Hperm.
+    assert (Hin : forall a, In a (ss ++ cs) <-> In a sareas).
+    { intros a. split; intros H; [eapply Permutation_in; [exact Hperm|exact H]|eapply Permutation_in; [apply Permutation_sym; exact Hperm|exact H]]. }
+    destruct (region_init_simple N cs ss (lstart sl) (lend sl)) as (h & Hri & Hh0 & Hh1 & Hr0 & Hr1 & Hr2).
+    { intros E. apply Hne. apply Permutation_nil. rewrite E in Hperm. exact Hperm. }
+    { apply Forall_forall. intros a Ha. rewrite Forall_forall in Hsimple. apply Hsimple. apply Hin. exact Ha. }
+    { intros a Ha. apply Hbounds. apply Hin. exact Ha. }
+    { destruct Hmin as (a & Ha & E). exists a. split; [apply Hin; exact Ha|exact E]. }
+    { destruct Hmax as (a & Ha & E). exists a. split; [apply Hin; exact Ha|exact E]. }
+    rewrite Hri. cbn [bind].
+    (* the new region lies after every region of the record: it is appended *)
+    assert (Hnew : simple_reg N (mkCR [h] cs ss)) by (exists h; cbn [rloc]; split; [reflexivity|lia]).
+    assert (Hadd : add_region N regs (mkCR [h] cs ss) = Ok (regs ++ [mkCR [h] cs ss])).
+    { unfold add_region. cbn [rloc]. rewrite lstart1, lend1. replace ((ps h <? 0) || (N <? pe h)) with false by lia.
+      destruct (add_scan_spec N h ltac:(lia) regs 0%nat Hs Hsd) as [_ H2].
+      destruct H2 as (k & Hk & Hlen & Hf & Hsk').
+      { intros (ex & Hex & Hsh). rewrite Forall_forall in Hs. destruct (Hs ex Hex) as (q & Hq & ? & ? & ?).
+        specialize (Hbefore ex (sl, sareas) Hex (or_introl eq_refl)). cbn [fst] in Hbefore.
+        rewrite Hq in Hsh, Hbefore. rewrite lend1 in Hbefore. apply simple_shares in Hsh; lia. }
+      rewrite Hk. cbn [bind Nat.add]. f_equal. unfold insert_at.
+      assert (Hnil : skipn k regs = []).
+      { destruct (skipn k regs) as [|x t] eqn:E; [reflexivity|]. exfalso.
+        assert (Hx : In x regs) by (rewrite <- (firstn_skipn k regs), E; apply in_or_app; right; left; reflexivity).
+        inversion Hsk'; subst. rewrite Forall_forall in Hs. destruct (Hs x Hx) as (q & Hq & ? & ? & ?).
+        specialize (Hbefore x (sl, sareas) Hx (or_introl eq_refl)). cbn [fst] in Hbefore.
+        rewrite Hq in *. rewrite lend1 in Hbefore. rewrite lstart1 in H1. lia. }
+      rewrite Hnil. rewrite <- (firstn_skipn k regs) at 2. rewrite Hnil, app_nil_r. reflexivity. }
+    rewrite Hadd. cbn [bind].
+    destruct (IH (regs ++ [mkCR [h] cs ss])) as (regs' & Hr & Hview & Hs' & Hsd').
+    + apply Forall_app. split; [assumption|constructor; [assumption|constructor]].
+    + replace (regs ++ [mkCR [h] cs ss]) with (regs ++ mkCR [h] cs ss :: []) by reflexivity.
+      apply sorted_disjoint_insert; [rewrite app_nil_r; assumption|cbn [rloc]; rewrite lstart1, lend1; lia| |constructor].
+      apply Forall_forall. intros x Hx. cbn [rloc]. rewrite lstart1, Hh0. apply (Hbefore x (sl, sareas) Hx). left. reflexivity.
+    + assumption.
+    + assumption.
+    + intros r sec Hr' Hsec. apply in_app_or in Hr'. destruct Hr' as [Hr'|[<-|[]]].
+      * apply (Hbefore r sec Hr'). right. exact Hsec.
+      * cbn [rloc]. rewrite lend1, Hh1. rewrite Forall_forall in Hall. apply Hall. exact Hsec.
+    + exists regs'. split; [exact Hr|]. split; [|split; assumption].
+      rewrite Hview, map_app, <- app_assoc. f_equal. cbn [map app]. f_equal.
+      unfold region_view, region_of_sec. cbn [rloc rcands rsubs fst snd]. rewrite Hsk, lstart1, lend1, Hh0, Hh1. reflexivity.
+Qed.
+
+Fixpoint lin_ordered (l : list (Z * Z * list itv)) : Prop :=
+  match l with
+  | [] => True
+  | x :: t => Forall (fun y => snd (fst x) <= fst (fst y)) t /\ lin_ordered t
+  end.
+Lemma lin_ordered_app_last : forall l x, lin_ordered l -> Forall (fun y => snd (fst y) <= fst (fst x)) l -> lin_ordered (l ++ [x]).
+Proof.
+  induction l as [|y l IH]; intros x Ho Hf; cbn [app lin_ordered]; [split; [constructor|exact I]|].
+  destruct Ho as [Hy Ho]. inversion Hf; subst. split; [apply Forall_app; split; [assumption|constructor; [assumption|constructor]]|apply IH; assumption].
+Qed.
+Lemma hulls_lin_ordered : forall gs, hulls_ordered gs -> lin_ordered (map lin_of_grp (rev gs)).
+Proof.
+  induction gs as [|[[cs he] ms] rest IH]; intros H; [exact I|]. destruct H as [Hf Hr].
+  cbn [rev]. rewrite map_app. apply lin_ordered_app_last; [apply IH; exact Hr|].
+  apply Forall_forall. intros y Hy. apply in_map_iff in Hy. destruct Hy as ([[cs' he'] ms'] & <- & Hin).
+  apply in_rev in Hin. rewrite Forall_forall in Hf. specialize (Hf _ Hin). cbn. exact Hf.
+Qed.
+Lemma secs_ordered_of_lin : forall secs, lin_ordered (map lin_of_sec secs) -> secs_ordered secs.
+Proof.
+  induction secs as [|x secs IH]; intros H; [exact I|]. destruct H as [Hf Hr]. split; [|apply IH; exact Hr].
+  apply Forall_forall. intros y Hy. rewrite Forall_forall in Hf. apply (Hf (lin_of_sec y)). apply in_map. exact Hy.
+Qed.
+
+Lemma ring_create_regions N circular cands subs : Forall (simple_area N) (cands ++ subs) ->
+  exists secs regs,
+    csections (wrap_of N circular) cands subs = Ok secs /\
+    create_regions N circular [] cands subs = Ok regs /\
+    map lin_of_sec secs = regions N (map area_of (cands ++ subs)) /\
+    map region_view regs = map region_of_sec secs /\
+    sorted_disjoint regs /\ Forall (simple_reg N) regs.
+Proof.
+  intros Hs. destruct (ring_sections_linear N circular cands subs Hs) as (secs & Hsec & Hlin & _ & Hmem).
+  assert (Hwf : Forall (wf N) (map area_of (cands ++ subs))).
+  { apply Forall_forall. intros i Hi. apply in_map_iff in Hi. destruct Hi as (a & <- & Ha).
+    apply simple_area_wf. rewrite Forall_forall in Hs. apply Hs. exact Ha. }
+  rewrite (regions_are_sections N _ Hwf) in Hlin.
+  destruct (sections_spec N _ Hwf) as (_ & Hgroups & _ & lo & Hinv).
+  set (gs := sweep N 0 (sort_by area_lt (map area_of (cands ++ subs)))) in *.
+  assert (Hlin' : map lin_of_sec secs = map lin_of_grp (rev gs)) by exact Hlin.
+  assert (Hord : secs_ordered secs).
+  { apply secs_ordered_of_lin. rewrite Hlin'. apply hulls_lin_ordered. eapply inv_hulls_ordered. exact Hinv. }
+  assert (Htight : Forall (sec_tight N) secs).
+  { apply Forall_forall. intros sec Hsecin.
+    assert (Hx : In (lin_of_sec sec) (map lin_of_grp (rev gs))) by (rewrite <- Hlin'; apply in_map; exact Hsecin).
+    apply in_map_iff in Hx. destruct Hx as ([[cs he] ms] & Hxeq & Hxin). apply in_rev in Hxin.
+    destruct (Hgroups _ Hxin) as (Hne & Hb & (mn & Hmn & Hmns) & (mx & Hmx & Hmxe) & _).
+    unfold lin_of_grp, lin_of_sec in Hxeq. injection Hxeq as Hcs Hhe Hms. cbn [members core_of fst snd] in *.
+    assert (Hin : forall m, In m ms <-> exists a, In a (snd sec) /\ area_of a = m).
+    { intros m. rewrite (in_rev ms m), Hms, in_map_iff. split; intros (a & H1 & H2); exists a; tauto. }
+    rewrite Forall_forall in Hmem. unfold sec_tight. repeat split.
+    - intros E. apply Hne. rewrite E in Hms. cbn in Hms. destruct ms; [reflexivity|]. cbn in Hms. destruct (rev ms); discriminate.
+    - apply Hmem. exact Hsecin.
+    - rewrite <- Hcs. apply (Hb (area_of a)). apply Hin. exists a. split; [assumption|reflexivity].
+    - rewrite <- Hhe. apply (Hb (area_of a)). apply Hin. exists a. split; [assumption|reflexivity].
+    - apply Hin in Hmn. destruct Hmn as (a & Ha & <-). exists a. split; [exact Ha|]. rewrite <- Hcs. exact Hmns.
+    - apply Hin in Hmx. destruct Hmx as (a & Ha & <-). exists a. split; [exact Ha|]. rewrite <- Hhe. exact Hmxe. }
+  destruct (add_sections_simple N secs [] (Forall_nil _) I Htight Hord) as (regs & Hr & Hview & Hsr & Hsd); [intros r sec []|].
+  exists secs, regs. unfold create_regions. rewrite Hsec. cbn [bind].
+  rewrite (regions_are_sections N _ Hwf). repeat split; assumption.
+Qed.
